@@ -414,6 +414,15 @@ def run(tier, only=None):
                     m.prob.final_setup()
                     for pn in m.points:
                         wiring.check(R, m.prob, pn, "aerostruct:compressible=%s:rotational=%s:points=%d:internally_connect_fuelburn=%s:user_specified_Sref=%s:%s" % (comp, rot, npnt, icf, bool(icf) != bool(comp), pn))
+    # ... and for every combination of the load options of a surface (weight relief x distributed fuel x point masses): inside
+    # struct_states every load contribution the options switch on reaches the sum of the loads (OASWiring.ReadsOwnOutput)
+    for relief in (False, True):
+        for fuel in (False, True):
+            for npm in (0, 1):
+                sw = dict(name="wing", nx=2, ny=3, sym=True, side="L", shape="swept", visc=True, fem="wingbox", relief=relief, fuel=fuel, npm=npm, span=20.0, chord=3.0)
+                m = B.ASModel([sw], rng=np.random.default_rng(1))
+                m.prob.final_setup()
+                wiring.check(R, m.prob, "AS_point_0", "aerostruct:loads:relief=%s:fuel=%s:point_masses=%d" % (relief, fuel, npm))
     R.assume("coupled solver atol 1e-8 N, rtol 1e-14; solver combinations compared at 1e-8 (outputs) / 1e-6 (totals)", "a combination whose iterative solver reports non-convergence is recorded as inconclusive, never as a violation", "trace validation covers the incompressible coupled group (VLMStates); the compressible one is covered by C09/C03")
     return R.finish({"exhaustive": True, "inconclusive_solver_combinations": inconcl})
 
